@@ -39,6 +39,28 @@ type Job struct {
 	DataType      gdbi.DataType
 	MarkTypes     map[string]gdbi.DataType
 	StepChecksums []string
+	// lock guards Status: the spooling goroutine updates it while requests read it
+	lock sync.Mutex
+}
+
+// status returns a copy of the job status that the caller owns
+func (job *Job) status() *gripql.JobStatus {
+	job.lock.Lock()
+	defer job.lock.Unlock()
+	return &gripql.JobStatus{
+		Id:        job.Status.Id,
+		Graph:     job.Status.Graph,
+		State:     job.Status.State,
+		Count:     job.Status.Count,
+		Query:     job.Status.Query,
+		Timestamp: job.Status.Timestamp,
+	}
+}
+
+func (job *Job) state() gripql.JobState {
+	job.lock.Lock()
+	defer job.lock.Unlock()
+	return job.Status.State
 }
 
 func jobKey(graph, job string) string {
@@ -108,7 +130,7 @@ func (fs *FSResults) Search(graph string, Query []*gripql.GraphStatement) (chan 
 			vJob := value.(*Job)
 			if vJob.Status.Graph == graph {
 				if JobMatch(qcs, vJob.StepChecksums) {
-					out <- &vJob.Status
+					out <- vJob.status()
 				}
 			}
 			return true
@@ -146,13 +168,17 @@ func (fs *FSResults) Spool(graph string, stream *Stream) (string, error) {
 	fs.jobs.Store(jobKey(graph, jobName), job)
 	tbStream := MarshalStream(stream.Pipe, 4) //TODO: make worker count configurable
 	go func() {
+		job.lock.Lock()
 		job.Status.State = gripql.JobState_RUNNING
-		log.Printf("Starting Job: %#v", job)
+		job.lock.Unlock()
+		log.Printf("Starting Job: %s", jobName)
 		defer resultFile.Close()
 		for i := range tbStream {
 			resultFile.Write(i)
 			resultFile.Write([]byte("\n"))
+			job.lock.Lock()
 			job.Status.Count += 1
+			job.lock.Unlock()
 		}
 		// The job is reported as complete only after its status record is on
 		// disk: a job that a client has seen complete survives a restart.
@@ -172,6 +198,8 @@ func (fs *FSResults) Spool(graph string, stream *Stream) (string, error) {
 				err = os.Rename(statusPath+".tmp", statusPath)
 			}
 		}
+		job.lock.Lock()
+		defer job.lock.Unlock()
 		if err == nil {
 			job.Status.State = gripql.JobState_COMPLETE
 			log.Printf("Job Done: %s (%d results)", jobName, job.Status.Count)
@@ -186,7 +214,7 @@ func (fs *FSResults) Spool(graph string, stream *Stream) (string, error) {
 func (fs *FSResults) Stream(ctx context.Context, graph, id string) (*Stream, error) {
 	if v, ok := fs.jobs.Load(jobKey(graph, id)); ok {
 		vJob := v.(*Job)
-		if vJob.Status.State == gripql.JobState_COMPLETE {
+		if vJob.state() == gripql.JobState_COMPLETE {
 			resultFile := filepath.Join(fs.BaseDir, sanitize.Name(graph), sanitize.Name(id), "results")
 			results, err := os.Open(resultFile)
 			if err != nil {
@@ -224,7 +252,7 @@ func (fs *FSResults) Stream(ctx context.Context, graph, id string) (*Stream, err
 func (fs *FSResults) Delete(graph, id string) error {
 	if v, ok := fs.jobs.Load(jobKey(graph, id)); ok {
 		vJob := v.(*Job)
-		if vJob.Status.State == gripql.JobState_RUNNING || vJob.Status.State == gripql.JobState_QUEUED {
+		if state := vJob.state(); state == gripql.JobState_RUNNING || state == gripql.JobState_QUEUED {
 			return fmt.Errorf("Job cancel not yet implemented")
 		}
 		fs.jobs.Delete(jobKey(graph, id))
@@ -237,8 +265,7 @@ func (fs *FSResults) Delete(graph, id string) error {
 func (fs *FSResults) Status(graph, id string) (*gripql.JobStatus, error) {
 	if v, ok := fs.jobs.Load(jobKey(graph, id)); ok {
 		vJob := v.(*Job)
-		a := vJob.Status
-		return &a, nil
+		return vJob.status(), nil
 	}
 	return nil, fmt.Errorf("Job Not Found")
 }
